@@ -31,7 +31,7 @@ ASSUMPTIONS = [
 
 @st.composite
 def _case(draw, max_nodes):
-    c = draw(gen.g1_case(2, max_nodes))
+    c = draw(gen.g1_case(2, max_nodes, p_const=0.2))
     c["sched"] = draw(st.lists(st.integers(0, 7), max_size=24))
     # optional non-conflicting injection of an intermediate value (only consulted when the validator accepts it)
     c["inject"] = draw(st.booleans()) and prob(draw, 0.3)
@@ -95,6 +95,8 @@ def check_case(case, ev):
         labels.add("binding_shadowed_by_runtime")
     if select is not None:
         labels.add("select")
+    if any("ret" in n for n in nodes):
+        labels.add("falsy_or_None_output")
 
     for flavour, runner in (("sync", "sync"), ("sync", "async"), ("async", "async")):
         ctx = Ctx()
